@@ -570,7 +570,8 @@ class Ctx:
               "known_findings_replayed": self.known_hit, "notes": self.notes}
         # runs against a scratch copy of the repository (mutation experiments) must not overwrite
         # the evidence of the real tree
-        evdir = os.path.join(VERIF, "evidence") if os.path.realpath(REPO) == "/repo" else self.dir
+        is_prop = bool(re.fullmatch(r"C\d\d", self.prop))     # MACHINE / SPIN / COMPOSE are shared developments, not properties
+        evdir = os.path.join(VERIF, "evidence") if (os.path.realpath(REPO) == "/repo" and is_prop) else self.dir
         os.makedirs(evdir, exist_ok=True)
         with open(os.path.join(evdir, self.prop + ".json"), "w") as f:
             json.dump(ev, f, indent=1, default=str)
